@@ -185,7 +185,8 @@ pub fn response_spaces(_tier: Tier) -> Vec<CallSpace> {
 }
 
 /// Vendor-defined / SPDM / secured message framing (the C08 space).
-pub fn vendor_spaces(tier: Tier) -> Vec<CallSpace> {
+/// `full_iana`: include all 2^32 IANA numbers (C08's thorough tier only).
+pub fn vendor_spaces(_tier: Tier, full_iana: bool) -> Vec<CallSpace> {
     let msg5 = || vec![0x11u8, 0x22, 0x33, 0x44, 0x55];
     let mut v = vec![
         CallSpace::new("vendor_defined format byte 0..=255", 256 * 2, move |i| EncCall::Vendor {
@@ -220,7 +221,7 @@ pub fn vendor_spaces(tier: Tier) -> Vec<CallSpace> {
             msg: vec![0x77],
         }),
     ];
-    if tier.thorough() {
+    if full_iana {
         v.push(CallSpace::new("vendor_defined IANA all 2^32 numbers", 1u64 << 32, move |i| EncCall::Vendor {
             fmt: 1,
             data: i as u32,
